@@ -33,6 +33,28 @@ TComplete == Is("Complete") /\ Complete(Ev.ec # 0)
 TSetup    == Is("Setup") /\ Setup
 THandler  == Is("Handler") /\ Handler
 TOnError  == Is("OnError") /\ OnError
+\* What the application saw of a structurally odd header block (Seen line, only when the request was served): every
+\* (name, value) of its environment is a (name, value) pair of the block THIS peer sent - consecutive NUL-terminated
+\* strings of the SCGI netstring, name-value pairs of the FastCGI PARAMS stream - and nothing carries the marker
+\* of the connection served just before.
+SentPairs(e) ==
+    CASE e.proto = "scgi" ->
+           LET w == e.sent
+               colon == FirstOf(w, COLON, 1)
+               len == DecVal(Take(w, colon - 1))
+               f == Split(SubSeq(w, colon + 1, colon + len), NUL)
+               n == Len(f) - 1                                  \* number of NUL-terminated strings
+           IN { <<f[2 * i - 1], f[2 * i]>> : i \in 1..(n \div 2) }
+      [] e.proto = "fcgi" ->
+           LET ps == SelectSeq(Recs(e.sent, 1, <<>>), LAMBDA r : r.type = T_PARAMS)
+           IN KVSet(NvPairs(Concat([i \in 1..Len(ps) |-> ps[i].c]), 1, <<>>).ps)
+      [] OTHER -> {}
+TSeen == /\ Is("Seen")
+         /\ Ev.ok
+         /\ KVSet(Ev.env) \subseteq SentPairs(Ev)
+         /\ \A i \in DOMAIN Ev.env : ~IsSubstr(Ev.marker, Ev.env[i].k) /\ ~IsSubstr(Ev.marker, Ev.env[i].v)
+         /\ UNCHANGED cvars
+
 TReply    == Is("Reply") /\ Reply(Ev.kind, Ev.status, Ev.pstatus, Ev.nrep, Ev.frame)
 
 AbsOf(e) == [m |-> e.m, script |-> e.script, path |-> e.path, hasq |-> e.hasq, q |-> e.q, ver |-> e.ver,
@@ -40,7 +62,7 @@ AbsOf(e) == [m |-> e.m, script |-> e.script, path |-> e.path, hasq |-> e.hasq, q
 TProbe == Is("Probe") /\ Probe(Matches(Ev.o, Reference(AbsOf(Ev))))
 
 TraceInit == CInit /\ l \in { i \in 1..NLines : TraceLog[i].e = "Reset" } /\ start = l
-TraceNext == /\ (TReset \/ TConn \/ TPrepare \/ TComplete \/ TSetup \/ THandler \/ TOnError \/ TReply \/ TProbe)
+TraceNext == /\ (TReset \/ TConn \/ TPrepare \/ TComplete \/ TSetup \/ THandler \/ TOnError \/ TSeen \/ TReply \/ TProbe)
              /\ PrintT(<<"AT", start, l>>)          \* reached only when line l was matched
 TraceSpec == TraceInit /\ [][TraceNext]_tvars
 =============================================================================
